@@ -196,6 +196,9 @@ class _ReturnOrYieldFinder(ast.RopeNodeVisitor):
     def _Yield(self, node):
         self.yields += 1
 
+    def _YieldFrom(self, node):
+        self.yields += 1
+
     def _FunctionDef(self, node):
         pass
 
